@@ -90,7 +90,7 @@ CLASSES = {
             "node_executions": DICT(STR, OBJ("NodeExecution")),
             "routing_decisions": DICT(STR, ANY),
         },
-        "methods": {},
+        "methods": {"copy": {"custom": lambda ex, recv, args, kwargs, s: _graphstate_copy(ex, recv, s)}},
     },
     "NodeExecution": {
         "module": "hypergraph.runners._shared.types", "file": "runners/_shared/types.py",
@@ -176,6 +176,7 @@ CLASSES = {
 # attribute / method access on statically untyped values (e.g. elements of a locally built list): node vocabulary
 ANY_ATTRS = dict(NODE_ATTRS)
 ANY_ATTRS.update({"__cause__": ANY, "partial_state": ANY, "_partial_state": ANY, "pause_info": ANY, "error": ANY, "status": ANY})
+ANY_ATTRS.update({"current_span_id": SEQ(ANY)})  # executor slot for the running node's span id (a one-element list)
 ANY_ATTRS.update({"kind": STR, "old": STR, "new": STR, "batch_id": ANY})  # RenameEntry fields read from an untyped element
 ANY_METHODS = dict(NODE_METHODS)
 ANY_METHODS.update({
@@ -212,6 +213,32 @@ OPAQUE = {
     # function of (history list, kind); the history list of a published node is never mutated
     "build_reverse_rename_map": {"raises": [], "returns": DICT(STR, STR), "pure_content": "dict"},
 }
+
+
+def _graphstate_copy(ex, recv, s):
+    """GraphState.copy() -- ASSUMED contract (A4; its dict comprehension over `dataclasses.replace` allocates per element,
+    outside the verified subset; exercised natively by every bounded harness run): a FRESH GraphState whose four dicts are
+    FRESH and hold the same keys; values / versions / routing_decisions map to the same objects; node_executions maps each
+    key to a record with the same node_name (the records themselves are copies)."""
+    from pyvc.engine import alloc, alloc_dict
+    from pyvc.calls import copy_container
+    ex.model.used.add("ASSUMED contract GraphState.copy(): fresh state, fresh dicts with equal content (records of node_executions copied)")
+    new = alloc(s, "GraphState", OBJ("GraphState"))
+    s.assume(smt.inst_pred("GraphState")(new.t))
+    for attr, (kty, vty) in {"values": (STR, ANY), "versions": (STR, INT), "node_executions": (STR, OBJ("NodeExecution")), "routing_decisions": (STR, ANY)}.items():
+        src = ex.read_attr(recv, attr, DICT(kty, vty), s)
+        d = alloc_dict(s, kty, vty)
+        copy_container(s, "d", src.t, d.t)
+        if attr == "node_executions":
+            # the records are copies: unspecified fresh-or-not objects; only the key set and sizes are kept
+            h = s.heap
+            s.heap = h.with_comp("dv", z3.Store(h.c["dv"], d.t, z3.Const(smt.fresh_name("nx_copy"), z3.ArraySort(smt.V, smt.V))))
+        if attr in s.heap.f:
+            s.heap = s.heap.with_field(attr, z3.Store(s.heap.f[attr], new.t, d.t))
+        else:
+            s.assume(smt.attr_func(attr)(new.t) == d.t)
+    s.trace.append(("call", ".copy", {"self": recv}))
+    yield s, new
 
 
 def _graph_iter_nodes(ex, recv, s):
@@ -337,6 +364,9 @@ REGION_ATTRS = [
     "bound",  # InputSpec
 ]
 Region = z3.Function("Region", smt.V, z3.IntSort())
+# The executor's span slot (`execute_node.current_span_id`, a one-element list created in the executor's constructor and
+# reachable through no other attribute): shared with no other attribute value of any object (assumption A3).
+PRIVATE_ATTRS = ["current_span_id"]
 
 
 def axioms(ex):
@@ -347,4 +377,13 @@ def axioms(ex):
         f = smt.attr_func(a)
         ax.append(z3.ForAll([o], Region(f(o)) == i + 1, patterns=[f(o)]))
     ex.model.used.add("separation: containers held in fields %s are pairwise distinct objects" % ", ".join(REGION_ATTRS))
+    p = z3.Const("rg_p", smt.V)
+    for a in PRIVATE_ATTRS:
+        if a not in smt._attr_funcs:
+            continue
+        fa = smt.attr_func(a)
+        for name, f in list(smt._attr_funcs.items()):
+            if name != a:
+                ax.append(z3.ForAll([o, p], fa(o) != f(p), patterns=[z3.MultiPattern(fa(o), f(p))]))
+        ex.model.used.add(f"separation: the container held in attribute {a} is shared with no other attribute value")
     return ax
